@@ -407,6 +407,12 @@ func kAmounts(name string) kindFn {
 		case "wrap3":
 			vals = []uint64{1 << 63, 1 << 62, 1<<62 + x}
 			fees = c.Value - x
+		case "wrap-many": // 8785 outputs, each within MAX_MONEY, total = 2^64 + x
+			for i := 0; i < 8784; i++ {
+				vals = append(vals, maxMoney)
+			}
+			vals = append(vals, 344073709551616+x) // 2^64 - 8784*MAX_MONEY + x
+			fees = c.Value - x
 		case "total-over": // each in range, total out of range (and above the input)
 			vals = []uint64{maxMoney, 1}
 		case "fee-1": // outputs exceed the input by one satoshi
@@ -632,6 +638,7 @@ func kinds() []kindEntry {
 		{"amount-wrap2", kAmounts("wrap2"), 2, false},
 		{"amount-wrap3", kAmounts("wrap3"), 2, false},
 		{"amount-total-over", kAmounts("total-over"), 1, false},
+		{"amount-wrap-many", kAmounts("wrap-many"), 1, false},
 		{"fee-underflow-1", kAmounts("fee-1"), 3, false},
 		{"fee-zero", kAmounts("fee0"), 1, false},
 		{"coinbase-claim+1", kCoinbaseClaim(1, false), 3, false},
@@ -667,7 +674,7 @@ func runEpisodes(r *vlib.Run, o *vlib.Oracle) {
 	for _, k := range ks {
 		totalW += k.weight
 	}
-	nEp := r.N(10, 90)
+	nEp := r.N(12, 220)
 	steps := r.N(45, 70)
 	for ep := 0; ep < nEp; ep++ {
 		g := r.Rng.Fork()
